@@ -162,13 +162,20 @@ def classify(fn, facts_list, devfield, size_id, data_id, facts=None):
 def _is_checksum_local(fn, vid, data_id):
     """the local is accumulated from the payload bytes and finished with (128 - (v & 127)) & 127"""
     acc = fin = False
+    # the bytes may be read through a local pointer that walks the payload
+    from_data = {data_id}
+    for x in walk(fn.tree):
+        if isinstance(x, dict) and x.get('k') == 'DeclStmt':
+            for v in x.get('decls', []):
+                if v.get('init') is not None and (v.get('t') or {}).get('p') and strip(v['init']).get('k') == 'DeclRefExpr' and strip(v['init']).get('id') == data_id:
+                    from_data.add(v['id'])
     for b, j, st in fn.cfg.stmts():
         for x in walk(st['s']):
             ap = assign_parts(x)
             if not ap or strip(ap[0]).get('id') != vid:
                 continue
             l, r, op = ap
-            if op == '+=' and mentions(r, lambda y: y.get('k') == 'DeclRefExpr' and y.get('id') == data_id):
+            if op == '+=' and mentions(r, lambda y: y.get('k') == 'DeclRefExpr' and y.get('id') in from_data):
                 acc = True
             if op == '=':
                 r = strip(r)
@@ -458,14 +465,39 @@ def analyse(facts, tier):
                 obls.append(Obl('C19.R1', h.name, what + ' (broadcast id)', st['loc'], 'finding' if blocked else 'discharged',
                                 why='the guard %s is false for device byte 7F: a message addressed to the broadcast id never takes effect and is reported as rejected' % blocked if blocked else
                                 'every device guard holds for 7F', nontrivial=False))
-        # R2: returns
+        # R2: acceptance and rejection points.  `return true` / `return false`, or - single-exit form - `accepted = true` / `= false`
+        # stored into the bool local that the function returns (initialised false: reaching the return without an acceptance point
+        # rejects)
+        acc_sites, rej_sites, var_form = [], [], False
         for b, j, st in h.cfg.returns():
             rv = st['s'].get('e')
             c = const_of(rv) if rv else None
-            if c is None:
-                obls.append(Obl('C19.R2', h.name, show(st['s']), st['loc'], 'finding', why='acceptance value is not a constant; cannot be tied to an effect'))
+            if c is not None:
+                (acc_sites if c else rej_sites).append((b, j, st))
                 continue
-            if c:    # return true: an effect must dominate it
+            r_ = strip(rv) if rv else None
+            ok_var = False
+            if r_ is not None and r_.get('k') == 'DeclRefExpr' and not r_.get('parm'):
+                writes = []
+                init_c = None
+                for b2, j2, st2 in h.cfg.stmts():
+                    if st2['s'].get('k') == 'DeclStmt':
+                        for v in st2['s']['decls']:
+                            if v['id'] == r_['id']:
+                                init_c = const_of(v.get('init')) if v.get('init') is not None else None
+                    for x in walk(st2['s']):
+                        ap = assign_parts_raw(x) if isinstance(x, dict) else None
+                        if ap and strip(ap[0]).get('id') == r_['id']:
+                            writes.append((b2, j2, st2, const_of(ap[1]) if ap[2] == '=' else None))
+                if init_c == 0 and writes and all(w[3] is not None for w in writes):
+                    ok_var = True
+                    var_form = True
+                    for b2, j2, st2, cv in writes:
+                        (acc_sites if cv else rej_sites).append((b2, j2, st2))
+            if not ok_var:
+                obls.append(Obl('C19.R2', h.name, show(st['s']), st['loc'], 'finding', why='acceptance value is not a constant; cannot be tied to an effect'))
+        for b, j, st in acc_sites:
+            if True:
                 dom_ok = any((eb == b and min(js) < j) or (eb != b and h.cfg.block_dominates(eb, b)) for eb, js in eff_blocks.items())
                 if not dom_ok:
                     # idiom: the effect sits in a counted loop body or under a NULL test of the synth pointer
@@ -487,15 +519,17 @@ def analyse(facts, tier):
                             dom_ok = True
                 obls.append(Obl('C19.R2', h.name, 'return true', st['loc'], 'discharged' if dom_ok else 'finding',
                                 why='dominated by a state effect' if dom_ok else 'message reported as accepted on a path without any effect'))
+        pd_h = h.cfg.pdom()
         for b, j, st, what in eff:
             bad = []
-            for rb, rj, rst in h.cfg.returns():
-                rv = rst['s'].get('e')
-                c = const_of(rv) if rv else None
-                if c:
-                    continue
+            for rb, rj, rst in rej_sites:
                 if (rb == b and rj > j) or h.cfg.reaches(b, rb):
                     bad.append(rst['loc'].rsplit(':', 1)[1])
+            if var_form and not bad:
+                # every way from the effect to the single return passes an acceptance point
+                passes = any((ab == b and aj > j) or (ab != b and ('b', ab) in (pd_h.get(('b', b)) or ())) for ab, aj, ast in acc_sites)
+                if not passes:
+                    bad.append('the return (no acceptance point on the way)')
             obls.append(Obl('C19.R2', h.name, what + ' => accept', st['loc'], 'finding' if bad else 'discharged',
                             why=('effect can reach rejecting return at line(s) ' + ','.join(sorted(set(bad)))) if bad else 'every return after the effect accepts'))
         # R3
@@ -600,6 +634,37 @@ def data_screen(fn, data_id, size_id, call_block):
                 if len(writes) == 1 and len(in_body) == 1 and is_incdec(writes[0]) and writes[0]['op'] == '++' and decl and const_of(decl[0].get('init')) is not None:
                     iv, start = cand['id'], const_of(decl[0]['init'])
         if iv is None or start is None or start > 1:
+            # any other way of walking the bytes (a pointer with an end pointer, a counter with another name or origin): read the loop
+            # through affine forms in its round counter #k - the byte tested in round #k is data[s + #k] with s <= 1, and the loop
+            # goes on while s + #k has not reached size - 1 (or size)
+            from .. import affine as _aff
+            for y in walk(loop.get('body')):
+                if not (isinstance(y, dict) and y.get('k') == 'IfStmt'):
+                    continue
+                m = [z for z in walk(y.get('cond')) if isinstance(z, dict) and z.get('k') == 'BinaryOperator' and (
+                     (z.get('op') == '&' and 0x80 in (const_of(z['l']), const_of(z['r']))) or
+                     (z.get('op') == '>=' and const_of(z['r']) == 0x80) or (z.get('op') == '>' and const_of(z['r']) == 0x7F))]
+                ret = [z for z in walk(y.get('then')) if isinstance(z, dict) and z.get('k') == 'ReturnStmt' and const_of(z.get('e')) == 0]
+                reads = [z for z in walk(y.get('cond')) if isinstance(z, dict) and (z.get('k') == 'ArraySubscriptExpr' or (z.get('k') == 'UnaryOperator' and z.get('op') == '*'))]
+                if not (m and ret and len(reads) == 1):
+                    continue
+                eng_ = _aff.Affine(fn, [], {})
+                env_ = eng_.run(lambda node, env__, e__, y=y: node is y.get('cond'))
+                if env_ is None:
+                    continue
+                dn = [p_['n'] for p_ in fn.params if p_['id'] == data_id]
+                sn = [p_['n'] for p_ in fn.params if p_['id'] == size_id]
+                if not dn or not sn:
+                    continue
+                A = _aff.address_form(eng_, reads[0], env_)
+                c_ = strip(loop.get('cond'))
+                if A is None or c_ is None or c_.get('k') != 'BinaryOperator' or c_.get('op') not in ('<', '!='):
+                    continue
+                D = _aff.add_forms(eng_.form(c_['l'], env_), eng_.form(c_['r'], env_), -1)
+                if A[0] == {dn[0]: 1, '#k': 1} and 0 <= A[1] <= 1 and D is not None and D[0] == {'#k': 1, sn[0]: -1} and A[1] <= D[1] <= A[1] + 1:
+                    for bid, blk in fn.cfg.blocks.items():
+                        if blk.get('term') in ('ForStmt', 'WhileStmt') and blk.get('cond') is not None and show(blk['cond']) == show(loop.get('cond')) and fn.cfg.block_dominates(bid, call_block):
+                            return 'loop at line %s (bytes %d.. of the message, round counter form)' % (loop.get('ln'), A[1])
             continue
         c = strip(loop.get('cond'))
         covers = False
